@@ -137,6 +137,10 @@ def leaf_text(l):
 
 def condition_text(tree, style="min"):
     tm = _map(tree)
+    if style == "args":  # both operands of the root operator parenthesised: (l) op (r) - not enclosed as a whole
+        if tm[0] in ("and", "or"):
+            return "(" + T.print_min(tm[1]) + ") " + tm[0] + " (" + T.print_min(tm[2]) + ")"
+        return T.print_min(tm)
     return {"min": T.print_min, "full": T.print_full, "flat": T.print_flat_assoc}[style](tm)
 
 
